@@ -682,3 +682,10 @@ package kcache
   loop 1 inv [representation] (and (WFitems {dom(c.items)} {val(c.items)}) (not (= {c.filter} vnil)) (not (= {c.items} vnil)))
   loop 1 inv [every-request-answered-exactly-once] (and (= nreply nreq) (= lc 0))
 @*/
+
+/*@ owner (*kcache._cache).run kcache._cache.items kcache._cache.filter
+@*/
+/*@ owner (*kcache.filterSubscription).run kcache.filterSubscription.filter
+@*/
+/*@ owner (*kcache.publisher).run kcache.publisher.subscriptions
+@*/
